@@ -1,6 +1,6 @@
 (* C10 -- State-dict/msgpack serialization round-trips exactly and rejects mismatches. *)
 From Coq Require Import Permutation.
-From Flaxm Require Import Lib.Harness Model.Flatten Model.Serial Proofs.Serial.
+From Flaxm Require Import Lib.Harness Model.Flatten Model.Serial Proofs.Serial Model.Msgpack Proofs.Msgpack.
 
 (* from_state_dict(t, to_state_dict(t)) = t for every pytree of dict / FrozenDict / list / tuple / namedtuple /
    struct dataclass, nested arbitrarily, any leaves *)
@@ -50,6 +50,39 @@ Theorem C10_dataclass_fields_raise : forall f p c fields st k,
   from_sd (S f) p (PData c fields) (SDict st) = Err (EFields p).
 Proof. exact dataclass_mismatch_raises. Qed.
 Print Assumptions C10_dataclass_fields_raise.
+
+(* ---- the wire format: msgpack-python's decoder inverts its encoder on every value within the format's limits,
+   consuming exactly the encoding (so trailing or missing bytes are rejected) ---- *)
+Theorem C10_decode_encode : forall v, mv_wfb v = true ->
+  forall f rest, mv_depth v <= f -> decode f (encode v ++ rest) = Some (v, rest).
+Proof. exact decode_encode. Qed.
+Print Assumptions C10_decode_encode.
+
+Theorem C10_unpackb_exact : forall v rest, mv_wfb v = true ->
+  unpackb (encode v ++ rest) = match rest with [] => Some v | _ => None end.
+Proof. exact decode_consumes. Qed.
+Print Assumptions C10_unpackb_exact.
+
+(* msgpack_restore(msgpack_serialize(s)) = s: ext payloads of arrays / numpy scalars / complex numbers, nested dicts,
+   chunked or not, for every chunk threshold *)
+Theorem C10_restore_serialize : forall isz_of th s, clean s -> sd_fits isz_of (chunk_leaves th s) = true ->
+  msgpack_restore isz_of (encode (sd_mv (chunk_leaves th s))) = Some s.
+Proof. exact restore_serialize. Qed.
+Print Assumptions C10_restore_serialize.
+
+(* from_bytes(t, to_bytes(t)) = t: the whole sentence, bytes included *)
+Theorem C10_from_bytes_to_bytes : forall isz_of th t, pwf t = true -> clean (to_sd t) ->
+  sd_fits isz_of (chunk_leaves th (to_sd t)) = true -> from_bytes isz_of t (to_bytes th t) = Ok t.
+Proof. exact from_bytes_to_bytes. Qed.
+Print Assumptions C10_from_bytes_to_bytes.
+
+Example C10_bytes_example :
+  let isz := isz_table [([105; 56]%N, 1%N)] in
+  let a := PLeaf (LArr [105; 56]%N [2; 2]%N 1 [1; 2; 3; 4]%N) in
+  let t := PDict [([112]%N, PList [a; PTuple [PLeaf (LInt (-300)); PLeaf LNone; PLeaf (LComplex 7 9)]]); ([113]%N, PNamed 1 [([120]%N, a)])] in
+  pwf t = true /\ sd_fits isz (chunk_leaves 1 (to_sd t)) = true /\ from_bytes isz t (to_bytes 1 t) = Ok t /\
+  from_bytes isz t (removelast (to_bytes 1 t)) = Err EOther /\ length (to_bytes 1 t) = 256.
+Proof. vm_compute. repeat split; reflexivity. Qed.
 
 (* non-vacuity *)
 Example C10_example :
